@@ -218,9 +218,17 @@ def run(prog, rep):
                 r_ = strip_casts(n["init"])
                 if r_ is not None and r_["k"] == "call" and r_.get("callee") == "p_uthread_get_local" and root_var(r_["args"][0]) == TLS:
                     getters[n["name"]] = n
-        if not getters or f_.name == "pp_uthread_cleanup":
+        clears0 = [(b, i, c) for (b, i, c) in f_.calls() if c.get("callee") == "p_uthread_set_local" and root_var(c["args"][0]) == TLS and cv(c["args"][1]) == 0]
+        if (not getters and not clears0) or f_.name == "pp_uthread_cleanup":
             continue
         unrefs = [(b, i, c) for (b, i, c) in f_.calls() if c.get("callee") == "p_uthread_unref" and root_var(c["args"][0]) in getters]
+        if clears0 and not unrefs:
+            # the reverse: a handle read from the slot and wiped from it by hand is unref'ed by hand - storing NULL runs no destructor
+            # (POSIX runs key destructors at thread exit and only for non-NULL values), so the reference the slot held is lost otherwise
+            nslot += 1
+            rep.ob("C05.2", f_, "slot:unref", False, "line %d: %s takes the thread's handle out of the library slot by storing NULL and never drops the reference the slot held: "
+                   "no destructor runs for a value replaced by NULL, the handle of the calling thread is never released" % (line(clears0[0][2]), f_.name), clears0[0][2])
+            continue
         if not unrefs:
             continue
         nslot += 1
@@ -485,7 +493,16 @@ def run(prog, rep):
     okk = len(kc) == 1 and guards.key(kc[0]["args"][1]).endswith("->free_func")
     rep.ob("C05.4", gk, "notifier:native", okk, "the native key is created with the key's notifier as thread-exit destructor" if okk else
            "pthread_key_create is not given key->free_func: values left at thread exit are never destroyed", gk.loc[0])
-    rep.floor("C05.4", 3)
+    # the native key outlives every reference to it (documented: local_free "doesn't remove the TLS key itself"): values other threads
+    # still hold get their notifier when those threads end.  pthread_key_delete is called in one place only - the loser of the first-use
+    # race deleting the key it made and nobody has seen
+    kd_ = [(f.name, line(c)) for f in pu.functions.values() for (b, i, c) in f.calls() if c.get("callee") == "pthread_key_delete"]
+    okkd = all(fn_ == "pp_uthread_get_tls_key" for (fn_, ln_) in kd_)
+    rep.ob("C05.4", pu.fn("p_uthread_local_free"), "key:kept", okkd, "pthread_key_delete is reached only where the first-use race discards an unpublished key" if okkd else
+           "line %d: %s deletes a published native key: pthread_key_delete runs no destructors and cancels them for every value still stored in any thread, so a value left at "
+           "thread exit never reaches its notifier" % ([x for x in kd_ if x[0] != "pp_uthread_get_tls_key"][0][1], [x for x in kd_ if x[0] != "pp_uthread_get_tls_key"][0][0]),
+           pu.fn("p_uthread_local_free").loc[0])
+    rep.floor("C05.4", 4)
 
     # ---- C05.5 ---------------------------------------------------------------------
     P5 = []
@@ -602,6 +619,10 @@ def run(prog, rep):
 RENAME_LOCALS = ['src/puthread.c', 'src/puthread-posix.c']
 
 SELFTEST = [
+    dict(id="local-free-deletes-native-key", file="src/puthread-posix.c", expect="C05.4",
+         old="p_uthread_local_free (PUThreadKey *key)\n{\n\tif (P_UNLIKELY (key == NULL))\n\t\treturn;\n", new="p_uthread_local_free (PUThreadKey *key)\n{\n\tif (P_UNLIKELY (key == NULL))\n\t\treturn;\n\n\tif (key->key != NULL)\n\t\tpthread_key_delete (*key->key);\n"),
+    dict(id="shutdown-wipes-slot-without-unref", file="src/puthread.c", expect="C05.2",
+         old="\t\t\tp_uthread_unref (cur_thread);\n\t\t\tp_uthread_set_local (pp_uthread_specific_data, NULL);", new="\t\t\tp_uthread_set_local (pp_uthread_specific_data, NULL);"),
     dict(id="detach-state-compares-with-true", file="src/puthread-posix.c", expect="C05.3",
          old="joinable ? PTHREAD_CREATE_JOINABLE", new="joinable == TRUE ? PTHREAD_CREATE_JOINABLE"),
     dict(id="eperm-retry-result-dropped", file="src/puthread-posix.c", expect="C05.2",
